@@ -258,83 +258,99 @@ def kinds(prog):
 
 
 # ------------------------------------------------------------------ generator
+class Ctx:
+    """generation context: d = remaining depth, loops = enclosing loops in this scope, fn = inside a function
+    body, silent = no output allowed, indef = inside a function definition (no arithmetic for),
+    cl = loops entered since the innermost enclosing loop condition (None when not inside a condition)"""
+    __slots__ = ("d", "loops", "fn", "silent", "indef", "cl")
+
+    def __init__(self, d, loops=0, fn=False, silent=False, indef=False, cl=None):
+        self.d, self.loops, self.fn, self.silent, self.indef, self.cl = d, loops, fn, silent, indef, cl
+
+    def sub(self, **kw):
+        c = Ctx(self.d - 1, self.loops, self.fn, self.silent, self.indef, self.cl)
+        for k, v in kw.items():
+            setattr(c, k, v)
+        return c
+
+
 class Gen:
     """Typed random generator.  `opts`: whether `set` leaves are produced (C03);
-    `scoped`: probability that a break/continue count is chosen within the enclosing loops."""
+    `scoped`: probability that a break/continue is generated inside the scope rules
+    (1 <= count <= enclosing loops, no continue that targets a loop from its own condition);
+    `pipes`: probability that a pipeline has several stages."""
 
-    def __init__(self, rng, opts=False, scoped=0.9, maxdepth=4, budget=30, fail_bias=0.3):
+    def __init__(self, rng, opts=False, scoped=0.9, maxdepth=4, budget=30, fail_bias=0.3, pipes=0.03):
         self.rng = rng
         self.opts = opts
         self.scoped = scoped
         self.maxdepth = maxdepth
         self.budget = budget
         self.fail_bias = fail_bias
+        self.pipes = pipes
         self.nmark = 0
 
-    # context: d = remaining depth, loops = enclosing loops in this scope, fn = inside a function body
-    # silent = no output allowed, infn_def = inside a function definition (no arithmetic for)
     def mark(self):
         self.nmark += 1
         return ("m", self.nmark)
 
     def leaf(self, ctx):
         r = self.rng
-        d, loops, fn, silent, indef = ctx
         x = r.random()
         if x < 0.30:
-            return ("p",) if not silent and r.random() < 0.5 else (self.mark() if not silent else st(r.choice([0, 1])))
+            return ("p",) if not ctx.silent and r.random() < 0.5 else (self.mark() if not ctx.silent else st(r.choice([0, 1])))
         if x < 0.50:
             return st(r.choice([0, 1, 1, 1, 3, 7]) if r.random() < self.fail_bias + 0.4 else 0)
         if x < 0.62:
             k = "b" if r.random() < 0.55 else "c"
-            if loops > 0 and r.random() < self.scoped:
-                n = r.randint(1, loops)
-            else:
-                n = r.choice([0, 1, 1, 2, 3, 5])
-            return (k, n)
+            if r.random() < self.scoped:
+                hi = ctx.loops if (k == "b" or ctx.cl is None) else min(ctx.loops, ctx.cl)
+                if hi <= 0:
+                    if k == "c" and ctx.loops > 0:
+                        return ("b", r.randint(1, ctx.loops))
+                    return st(r.choice([0, 1]))
+                return (k, r.randint(1, hi))
+            return (k, r.choice([0, 1, 1, 2, 3, 5]))
         if x < 0.70:
-            if fn or r.random() < 0.15:
+            if ctx.fn or r.random() < 0.15:
                 return ("r", r.choice([None, 0, 1, 3, 5]))
             return st(1)
         if x < 0.75:
             return ("x", r.choice([None, 0, 1, 4]))
         if x < 0.85:
-            return ("l", r.randrange(0, 3)) if not silent else st(r.choice([0, 1]))
+            return ("l", r.randrange(0, 3)) if not ctx.silent else st(r.choice([0, 1]))
         if x < 0.93 and self.opts:
             return ("s", r.choice(["e", "e", "e", "p", "p"]), r.random() < 0.7)
         return ("k", r.randrange(0, NCTR), r.randint(0, 3))
 
     def cond(self, ctx, until=False):
-        """a loop condition that lets the loop end"""
+        """a loop condition that lets the loop end; ctx is the context inside the loop"""
         r = self.rng
-        d, loops, fn, silent, indef = ctx
         tick = ("k", r.randrange(0, NCTR), r.randint(0, 3))
+        inner = ctx.sub(cl=0)
+        inner.d = ctx.d
         x = r.random()
         if x < 0.55:
             l = [ao(pl(tick, bang=until))]
         elif x < 0.75:
-            pre = self.clist((d - 1, loops, fn, silent, indef), maxlen=2)
-            l = pre + [ao(pl(tick, bang=until))]
+            l = self.clist(inner, maxlen=2) + [ao(pl(tick, bang=until))]
         elif x < 0.9:
-            # tick && something / tick || something
-            other = self.pipeline((d - 1, loops, fn, silent, indef))
-            l = [ao(pl(tick, bang=until), (r.random() < 0.7, other))]
+            l = [ao(pl(tick, bang=until), (r.random() < 0.7, self.pipeline(inner)))]
         else:
-            l = self.clist((d - 1, loops, fn, silent, indef), maxlen=2)
+            l = self.clist(inner, maxlen=2)
         return l
 
     def cmd(self, ctx):
         r = self.rng
-        d, loops, fn, silent, indef = ctx
         self.budget -= 1
-        if d <= 0 or self.budget <= 0 or r.random() < 0.35:
+        if ctx.d <= 0 or self.budget <= 0 or r.random() < 0.35:
             return self.leaf(ctx)
-        sub = (d - 1, loops, fn, silent, indef)
+        sub = ctx.sub()
         x = r.random()
         if x < 0.12:
             return ("{", self.clist(sub))
         if x < 0.24:
-            return ("(", self.clist((d - 1, 0 if r.random() < 0.8 else loops, fn, silent, indef)))
+            return ("(", self.clist(ctx.sub(loops=0, cl=None)))
         if x < 0.42:
             elses = []
             for _ in range(r.choice([0, 0, 1, 1, 2])):
@@ -344,44 +360,29 @@ class Gen:
             return ("i", self.clist(sub, maxlen=2), self.clist(sub), elses)
         if x < 0.60:
             u = r.random() < 0.4
-            inner = (d - 1, loops + 1, fn, silent, indef)
+            inner = ctx.sub(loops=ctx.loops + 1, cl=None if ctx.cl is None else ctx.cl + 1)
             return ("w", u, self.cond(inner, until=u), self.clist(inner))
         if x < 0.76:
-            inner = (d - 1, loops + 1, fn, silent, indef)
-            return ("o", (not indef) and r.random() < 0.35, r.choice([0, 1, 2, 2, 3]), self.clist(inner))
+            inner = ctx.sub(loops=ctx.loops + 1, cl=None if ctx.cl is None else ctx.cl + 1)
+            return ("o", (not ctx.indef) and r.random() < 0.35, r.choice([0, 1, 2, 2, 3]), self.clist(inner))
         if x < 0.88:
             arms = []
             for _ in range(r.randint(1, 4)):
                 arms.append((r.random() < 0.6, r.choice([0, 0, 1, 2]), None if r.random() < 0.08 else self.clist(sub, maxlen=2)))
             return ("a", arms)
-        if not silent or True:
-            f = r.randrange(0, 3)
-            inner = (d - 1, 0, True, silent, True)
-            body = ("{", self.fbody(inner, f)) if r.random() < 0.8 else ("(", self.fbody(inner, f))
-            return ("d", f, body)
-
-    def fbody(self, ctx, f):
-        l = self.clist(ctx)
-        # recursion only behind a counter
-        out = []
-        for a in l:
-            out.append(self.guard_calls(a, f))
-        return out
-
-    def guard_calls(self, a, f):
-        return a   # calls are bounded by the fuel filter of the driver; see `terminates`
+        f = r.randrange(0, 3)
+        inner = ctx.sub(loops=0, fn=True, indef=True, cl=None)
+        return ("d", f, ("{" if r.random() < 0.8 else "(", self.clist(inner)))
 
     def pipeline(self, ctx):
         r = self.rng
-        d, loops, fn, silent, indef = ctx
         bang = r.random() < 0.12
-        if r.random() < 0.10 and d > 0:
+        if r.random() < self.pipes and ctx.d > 0:
             n = r.choice([2, 2, 3])
             stages = []
             for i in range(n):
                 lastst = i == n - 1
-                sctx = (d - 1, loops if r.random() < 0.3 else 0, fn, silent or not lastst, indef)
-                stages.append(self.cmd(sctx))
+                stages.append(self.cmd(ctx.sub(loops=0, cl=None, silent=ctx.silent or not lastst)))
             return (bang, stages)
         return (bang, [self.cmd(ctx)])
 
@@ -400,7 +401,7 @@ class Gen:
         out = []
         for _ in range(n):
             out.append(self.andor(ctx))
-            if not ctx[3] and r.random() < 0.45:
+            if not ctx.silent and r.random() < 0.45:
                 out.append(simple(("p",)))
         return out
 
@@ -408,7 +409,7 @@ class Gen:
         r = self.rng
         prog = []
         for _ in range(r.randint(1, 3)):
-            prog.append(self.clist((self.maxdepth, 0, False, False, False)))
+            prog.append(self.clist(Ctx(self.maxdepth)))
         prog.append([simple(("p",))])
         return prog
 
